@@ -16,6 +16,7 @@
 package quickfix
 
 import (
+	"sort"
 	"time"
 
 	"github.com/pkg/errors"
@@ -98,6 +99,28 @@ func (store *memoryStore) SaveMessageAndIncrNextSenderMsgSeqNum(seqNum int, msg 
 }
 
 func (store *memoryStore) IterateMessages(beginSeqNum, endSeqNum int, cb func([]byte) error) error {
+	if beginSeqNum > endSeqNum {
+		return nil
+	}
+
+	// For a range wider than the number of stored messages, walk the stored sequence numbers instead of
+	// counting through the range (a peer can request an arbitrarily wide range in a ResendRequest).
+	if uint64(endSeqNum)-uint64(beginSeqNum) > uint64(len(store.messageMap)) {
+		seqNums := make([]int, 0, len(store.messageMap))
+		for seqNum := range store.messageMap {
+			if beginSeqNum <= seqNum && seqNum <= endSeqNum {
+				seqNums = append(seqNums, seqNum)
+			}
+		}
+		sort.Ints(seqNums)
+		for _, seqNum := range seqNums {
+			if err := cb(store.messageMap[seqNum]); err != nil {
+				return err
+			}
+		}
+		return nil
+	}
+
 	for seqNum := beginSeqNum; seqNum <= endSeqNum; seqNum++ {
 		if m, ok := store.messageMap[seqNum]; ok {
 			if err := cb(m); err != nil {
